@@ -27,6 +27,9 @@ def _reexec():
     env['PYTHONPYCACHEPREFIX'] = cache
     env['PYTHONDONTWRITEBYTECODE'] = '1'
     env['CGSMILES_VERIF'] = '1'
+    # one BLAS / OpenMP thread per worker process (the pool already uses every core)
+    for k in ('OMP_NUM_THREADS', 'OPENBLAS_NUM_THREADS', 'MKL_NUM_THREADS', 'NUMEXPR_NUM_THREADS'):
+        env.setdefault(k, '1')
     py = '/venv/bin/python'
     os.execve(py, [py, '-B', os.path.abspath(__file__)] + sys.argv[1:], env)
 
